@@ -14,7 +14,7 @@ theorem step_faeq (s s' : St) (e : Ev) (hs : step s e = some s') :
     (FAeq s s' ∧ ∀ a, e = .cs a → ∃ c b, s.calls[a]? = some c ∧ c.op = .waitExited b) ∨
     (s.cfg = none ∧ ∃ c, e = .cfg c ∧ s' = { s with cfg := some c }) ∨
     (∃ (a : Nat) (c : Call) (cf : Cfg) (r : St × Res × Option Nat), e = .cs a ∧ s.cfg = some cf ∧
-      s.calls[a]? = some c ∧ apiCS s cf c.op = some r ∧ FAeq r.1 s' ∧
+      s.calls[a]? = some c ∧ c.st = .invoked ∧ apiCS s cf c.op = some r ∧ FAeq r.1 s' ∧
       ∃ c', s'.calls[a]? = some c' ∧ c'.st = .done r.2.1) := by
   cases e with
   | cfg c =>
@@ -34,7 +34,8 @@ theorem step_faeq (s s' : St) (e : Ev) (hs : step s e = some s') :
     split at hs
     · rename_i cf c hcf hc
       split at hs
-      · split at hs
+      · rename_i hinv
+        split at hs
         · split at hs
           · rename_i rinr hop _
             simp at hs; subst hs
@@ -49,7 +50,7 @@ theorem step_faeq (s s' : St) (e : Ev) (hs : step s e = some s') :
               simp at hs; subst hs
               right; right
               have hlt : a < r.1.calls.length := by rw [(wrSame_apiCS s cf _ r hr).len]; exact get_lt hc
-              exact ⟨a, c, cf, r, rfl, hcf, hc, hr, FAeq.of_recs rfl rfl rfl rfl rfl,
+              exact ⟨a, c, cf, r, rfl, hcf, hc, hinv, hr, FAeq.of_recs rfl rfl rfl rfl rfl,
                 _, setCall_get a _ hlt, rfl⟩
             · cases hs
       · cases hs
@@ -92,6 +93,13 @@ theorem step_faeq (s s' : St) (e : Ev) (hs : step s e = some s') :
     · simp at hs; subst hs; exact Or.inl ⟨FAeq.of_recs rfl rfl rfl rfl rfl, by intro a' h'; cases h'⟩
     · cases hs
   | envCancelW a =>
+    simp only [step, stepI] at hs
+    split at hs
+    · split at hs
+      · simp at hs; subst hs; exact Or.inl ⟨FAeq.of_recs rfl rfl rfl rfl rfl, by intro a' h'; cases h'⟩
+      all_goals cases hs
+    · cases hs
+  | envErr a e0 =>
     simp only [step, stepI] at hs
     split at hs
     · split at hs
@@ -301,7 +309,7 @@ theorem apiCS_fa (s : St) (cf : Cfg) (op : Op) (r : St × Res × Option Nat) (h 
 
 /-- **a record keeps its function and argument for ever** -/
 theorem step_fa (s s' : St) (e : Ev) (hs : step s e = some s') : RecsFa s s' := by
-  rcases step_faeq s s' e hs with ⟨h, _⟩ | ⟨_, c, _, h⟩ | ⟨a, c, cf, r, _, _, _, hr, h, _⟩
+  rcases step_faeq s s' e hs with ⟨h, _⟩ | ⟨_, c, _, h⟩ | ⟨a, c, cf, r, _, _, _, _, hr, h, _⟩
   · exact RecsFa.of_faeq h
   · subst h; exact RecsFa.of_eq rfl
   · exact (apiCS_fa s cf _ r hr).trans (RecsFa.of_faeq h)
@@ -464,7 +472,7 @@ theorem fn_reg_step (s s' : St) (e : Ev) (reg : Reg) (hl : RegLink fnSpec FnVal 
     | some o => ∃ reg', (monReg fnSpec).step reg o = some reg' ∧ RegLink fnSpec FnVal s' reg' := by
   refine reglink_step fnSpec FnVal s s' e reg hl hs (fun _ => rfl) ?_ ?_
   · intro cur hv hnw
-    rcases step_faeq s s' e hs with ⟨h, _⟩ | ⟨hn, c, _, h⟩ | ⟨a, c, cf, r, e0, hcf, hc, hr, h, _⟩
+    rcases step_faeq s s' e hs with ⟨h, _⟩ | ⟨hn, c, _, h⟩ | ⟨a, c, cf, r, e0, hcf, hc, _, hr, h, _⟩
     · exact hv.transfer h
     · subst h
       have hp : ¬ plainMode s := by rintro ⟨cf, g, _⟩; rw [hn] at g; cases g
@@ -475,7 +483,7 @@ theorem fn_reg_step (s s' : St) (e : Ev) (reg : Reg) (hl : RegLink fnSpec FnVal 
       exact h1.transfer h
   · intro cur a c v c' r e0 hc hw _ _ hv
     refine ⟨fun _ => ?_, fun h => by simp [fnSpec] at h⟩
-    rcases step_faeq s s' e hs with ⟨_, h⟩ | ⟨_, c0, e1, _⟩ | ⟨a', c0, cf, r0, e1, hcf, hc0, hr, h, _⟩
+    rcases step_faeq s s' e hs with ⟨_, h⟩ | ⟨_, c0, e1, _⟩ | ⟨a', c0, cf, r0, e1, hcf, hc0, _, hr, h, _⟩
     · obtain ⟨c0, b, hc0, hop⟩ := h a e0
       rw [hc] at hc0; cases hc0
       rw [hop] at hw; simp [fnSpec] at hw
@@ -562,14 +570,14 @@ theorem sv_reg_step (s s' : St) (e : Ev) (reg : Reg) (hl : RegLink svSpec svVal 
     | some o => ∃ reg', (monReg svSpec).step reg o = some reg' ∧ RegLink svSpec svVal s' reg' := by
   refine reglink_step svSpec svVal s s' e reg hl hs (fun _ => rfl) ?_ ?_
   · intro cur hv hnw
-    rcases step_faeq s s' e hs with ⟨h, _⟩ | ⟨hn, c, _, h⟩ | ⟨a, c, cf, r, e0, hcf, hc, hr, h, _⟩
+    rcases step_faeq s s' e hs with ⟨h, _⟩ | ⟨hn, c, _, h⟩ | ⟨a, c, cf, r, e0, hcf, hc, _, hr, h, _⟩
     · exact h.sv.trans hv
     · subst h; exact hv
     · have h1 := apiCS_sval s cf _ r hr
       rw [hnw a c e0 hc] at h1
       exact (h.sv.trans h1).trans hv
   · intro cur a c v c' r e0 hc hw hc' hst hv
-    rcases step_faeq s s' e hs with ⟨_, h⟩ | ⟨_, c0, e1, _⟩ | ⟨a', c0, cf, r0, e1, hcf, hc0, hr, h, c'', hc'', hst''⟩
+    rcases step_faeq s s' e hs with ⟨_, h⟩ | ⟨_, c0, e1, _⟩ | ⟨a', c0, cf, r0, e1, hcf, hc0, _, hr, h, c'', hc'', hst''⟩
     · obtain ⟨c0, b, hc0, hop⟩ := h a e0
       rw [hc] at hc0; cases hc0
       rw [hop] at hw; simp [svSpec] at hw
@@ -632,10 +640,217 @@ theorem apiCS_cfg (s : St) (cf : Cfg) (op : Op) (r : St × Res × Option Nat) (h
   | waitExited _ => simp [apiCS] at h
 
 theorem step_cfg (s s' : St) (e : Ev) (hs : step s e = some s') (hne : ∀ c, e ≠ .cfg c) : s'.cfg = s.cfg := by
-  rcases step_faeq s s' e hs with ⟨h, _⟩ | ⟨_, c, e0, _⟩ | ⟨a, c, cf, r, _, _, _, hr, h, _⟩
+  rcases step_faeq s s' e hs with ⟨h, _⟩ | ⟨_, c, e0, _⟩ | ⟨a, c, cf, r, _, _, _, _, hr, h, _⟩
   · exact h.cf
   · exact absurd e0 (hne c)
   · exact h.cf.trans (apiCS_cfg s cf _ r hr)
+
+/-- roots whose cancellation was announced stay announced or cancelled -/
+theorem step_crs (s s' : St) (e : Ev) (hs : step s e = some s') :
+    ∀ c, s.croots.contains c = true ∨ s.pcancel.contains c = true →
+      s'.croots.contains c = true ∨ s'.pcancel.contains c = true := by
+  have fr : ∀ T : St, T.croots = s.croots → T.pcancel = s.pcancel →
+      ∀ c, s.croots.contains c = true ∨ s.pcancel.contains c = true →
+        T.croots.contains c = true ∨ T.pcancel.contains c = true := by
+    intro T h1 h2 c h; rw [h1, h2]; exact h
+  cases e with
+  | cs a =>
+    simp only [step, stepI] at hs
+    split at hs
+    · rename_i cf c hcf hc
+      split at hs
+      · split at hs
+        · split at hs
+          · simp at hs; subst hs; exact fr _ (by simp [setCall, waitSample]) (by simp [setCall, waitSample])
+          · cases hs
+        · split at hs
+          · cases hs
+          · split at hs
+            · rename_i r hr
+              simp at hs; subst hs
+              exact fr _ (by simp [setCall, apiCS_croots s cf _ r hr]) (by simp [setCall, apiCS_pcancel s cf _ r hr])
+            · cases hs
+      · cases hs
+    · cases hs
+  | envCancel c =>
+    simp only [step, stepI] at hs
+    split at hs
+    · simp at hs; subst hs
+      intro d h
+      simp only [List.contains_cons, Bool.or_eq_true] at h ⊢
+      rcases h with h | h
+      · exact Or.inl h
+      · exact Or.inr (Or.inr h)
+    · cases hs
+  | envDo c =>
+    simp only [step, stepI] at hs
+    split at hs
+    · simp at hs; subst hs
+      intro d h
+      simp only [List.contains_cons, Bool.or_eq_true, beq_iff_eq] at h ⊢
+      rcases h with h | h
+      · exact Or.inl (Or.inr h)
+      · by_cases hdc : d = c
+        · exact Or.inl (Or.inl hdc)
+        · right
+          have hm : d ∈ s.pcancel := by simpa using h
+          have : d ∈ s.pcancel.erase c := (List.mem_erase_of_ne hdc).2 hm
+          simpa using this
+    · cases hs
+  | record n dur =>
+    simp only [step, stepI] at hs
+    split at hs
+    · rename_i cf x _ hx
+      split at hs
+      · exact fr _ (recordCS_croots s s' cf n x dur hs) (recordCS_pcancel s s' cf n x dur hs)
+      · cases hs
+    · cases hs
+  | timerCS t =>
+    simp only [step, stepI] at hs
+    split at hs
+    · split at hs
+      · simp at hs; subst hs; exact fr _ (by simp) (by simp)
+      · cases hs
+    · cases hs
+  | cfg c =>
+    simp only [step, stepI] at hs
+    split at hs
+    · simp at hs; subst hs; exact fr _ rfl rfl
+    · cases hs
+  | inv a op =>
+    simp only [step, stepI] at hs
+    split at hs
+    · simp at hs; subst hs; exact fr _ rfl rfl
+    · cases hs
+  | ret a r =>
+    simp only [step, stepI] at hs
+    split at hs
+    · split at hs
+      · simp at hs; subst hs; exact fr _ rfl rfl
+      · split at hs
+        · simp at hs; subst hs; exact fr _ rfl rfl
+        · cases hs
+    · cases hs
+  | wake a =>
+    simp only [step, stepI] at hs
+    split at hs
+    · split at hs
+      · split at hs
+        · simp at hs; subst hs; exact fr _ rfl rfl
+        · cases hs
+      · cases hs
+    · cases hs
+  | wctx a =>
+    simp only [step, stepI] at hs
+    split at hs
+    · split at hs
+      · split at hs
+        · simp at hs; subst hs; exact fr _ rfl rfl
+        · cases hs
+      · cases hs
+    · cases hs
+  | envCancelW a =>
+    simp only [step, stepI] at hs
+    split at hs
+    · split at hs
+      · simp at hs; subst hs; exact fr _ rfl rfl
+      all_goals cases hs
+    · cases hs
+  | envErr a e0 =>
+    simp only [step, stepI] at hs
+    split at hs
+    · split at hs
+      · simp at hs; subst hs; exact fr _ rfl rfl
+      all_goals cases hs
+    · cases hs
+  | giveUp n =>
+    simp only [step, stepI] at hs
+    split at hs
+    · split at hs
+      · split at hs
+        · simp at hs; subst hs; exact fr _ rfl rfl
+        · simp at hs; subst hs; exact fr _ rfl rfl
+      · cases hs
+    · cases hs
+  | drained n =>
+    simp only [step, stepI] at hs
+    split at hs
+    · split at hs
+      · simp at hs; subst hs; exact fr _ rfl rfl
+      · cases hs
+    · cases hs
+  | cbin k n f arg root =>
+    simp only [step, stepI] at hs
+    split at hs
+    · split at hs
+      · split at hs
+        · simp at hs; subst hs; exact fr _ rfl rfl
+        · cases hs
+      · cases hs
+    · cases hs
+  | cbout k o =>
+    simp only [step, stepI] at hs
+    split at hs
+    · split at hs
+      · split at hs
+        · simp at hs; subst hs; exact fr _ rfl rfl
+        · cases hs
+      · cases hs
+    · cases hs
+  | closeExit n =>
+    simp only [step, stepI] at hs
+    split at hs
+    · split at hs
+      · simp at hs; subst hs; exact fr _ rfl rfl
+      · cases hs
+    · cases hs
+  | emit o =>
+    simp only [step, stepI] at hs
+    split at hs
+    · split at hs
+      · simp at hs; subst hs; exact fr _ rfl rfl
+      · cases hs
+    · cases hs
+  | fire t =>
+    simp only [step, stepI] at hs
+    split at hs
+    · split at hs
+      · simp at hs; subst hs; exact fr _ rfl rfl
+      · cases hs
+    · cases hs
+  | probeCtx k b =>
+    simp only [step, stepI] at hs
+    split at hs
+    · split at hs
+      · simp at hs; subst hs; exact fr _ rfl rfl
+      · cases hs
+    · cases hs
+  | probeW a b =>
+    simp only [step, stepI] at hs
+    split at hs
+    · split at hs
+      · split at hs
+        · simp at hs; subst hs; exact fr _ rfl rfl
+        · cases hs
+      · cases hs
+    · cases hs
+  | quiesce p r l =>
+    simp only [step] at hs
+    split at hs
+    · simp at hs; subst hs; exact fr _ rfl rfl
+    · cases hs
+
+/-- at a quiescence point every announced cancellation has been performed -/
+theorem quiescent_pcancel {s : St} (h : quiescent s = true) : s.pcancel = [] := by
+  cases hp : s.pcancel with
+  | nil => rfl
+  | cons c t =>
+    exfalso
+    simp only [quiescent, Bool.and_eq_true, List.all_eq_true] at h
+    have hall := h.1.1.2 (.envDo c) (by
+      simp only [cands, List.mem_append, List.mem_map]
+      exact Or.inr ⟨c, by rw [hp]; simp, rfl⟩)
+    simp [stepI, hp] at hall
 
 structure LinLink (s : St) (ms : C05lSt) : Prop where
   ctx : RegLink ctxSpec ctxVal s ms.ctxR
@@ -644,10 +859,11 @@ structure LinLink (s : St) (ms : C05lSt) : Prop where
   cf : ∀ cf, s.cfg = some cf → ms.cfg = cf
   inf : ∀ k n, s.ent[k]? = some n → ∃ x y, s.insts[n]? = some x ∧ s.recs[x.rid]? = some y ∧
           lookupInfo ms.info k = some (y.fn, y.arg, x.root)
+  crs : ∀ c, ms.croots.contains c = true → s.croots.contains c = true ∨ s.pcancel.contains c = true
 
 theorem linLink_init : LinLink {} {} :=
   ⟨reglink_init _ _ (Or.inl rfl), reglink_init _ _ fnVal_init, reglink_init _ _ rfl,
-   by intro cf h; simp at h, by intro k n h; simp at h⟩
+   (by intro cf h; simp at h), (by intro k n h; simp at h), (by intro c h; simp at h)⟩
 
 theorem lookupInfo_cons_ne {k k' : Nat} {p : Nat × Nat × Nat} {l : List (Nat × Nat × Nat × Nat)} (h : k ≠ k') :
     lookupInfo ((k, p) :: l) k' = lookupInfo l k' := by
@@ -657,9 +873,51 @@ theorem lookupInfo_cons_self {k : Nat} {p : Nat × Nat × Nat} {l : List (Nat ×
     lookupInfo ((k, p) :: l) k = some p := by
   simp [lookupInfo, List.find?_cons]
 
+/-- what the monitor knows about an instance whose context is live -/
+theorem lin_facts {s : St} {ms : C05lSt} (hl : LinLink s ms) (ha : AllRec s) (hc : Cur s) (hi : I1 s) (hk : K4 s)
+    (k n : Nat) (hn : s.ent[k]? = some n) (hb : ctxErrOf s n = false) :
+    ∃ f arg root, lookupInfo ms.info k = some (f, arg, root) ∧ (root != 0) = true ∧ root ∈ ms.ctxR.vals ∧
+      s.croots.contains root = false ∧ (f != 0) = true ∧ f ∈ ms.fnR.vals ∧
+      (ms.cfg.state = true → (arg != 0) = true ∧ arg ∈ ms.svR.vals) := by
+  obtain ⟨x, y, hx, hy, hf⟩ := hl.inf k n hn
+  have hlive : s.isCancelled x = false := by simpa [ctxErrOf, hx] using hb
+  obtain ⟨g1, g2, r, y0, g3, g4, _, g6⟩ := live_current hc ha hi n x hx hlive
+  subst g6
+  rw [hy] at g4; cases g4
+  refine ⟨y.fn, y.arg, x.root, hf, ?_, ?_, ?_, ?_, ?_, ?_⟩
+  · rw [g1]; simpa using g2
+  · obtain ⟨Lc, curC, hokC, hvC⟩ := hl.ctx.ok
+    have hcurC : s.ctx = curC := by
+      rcases hvC with h | h
+      · exact h
+      · exact absurd h g2
+    have := hokC.cur_mem; rw [← hcurC, ← g1] at this; simpa using this
+  · simp only [St.isCancelled, Bool.or_eq_false_iff] at hlive; exact hlive.2
+  · obtain ⟨Lf, curF, hokF, hvF⟩ := hl.fn.ok
+    simpa using hvF.nz x.rid y g3 hy
+  · obtain ⟨Lf, curF, hokF, hvF⟩ := hl.fn.ok
+    have hcurF : y.fn = curF := by
+      by_cases hsm : stateMode s
+      · obtain ⟨cf, hcf, hst⟩ := hsm
+        have := (hk.lnk cf hcf hst x.rid y g3 hy).1
+        rw [this]; exact hvF.sf (not_plain_of_state hcf hst)
+      · exact hvF.rc hsm x.rid y g3 hy
+    have := hokF.cur_mem; rw [← hcurF] at this; simpa using this
+  · intro hsm
+    cases hcfg0 : s.cfg with
+    | none => have := hk.pre hcfg0; rw [g3] at this; cases this
+    | some cf =>
+      rw [hl.cf cf hcfg0] at hsm
+      obtain ⟨_, k2, k3, _⟩ := hk.lnk cf hcfg0 hsm x.rid y g3 hy
+      obtain ⟨Lv, curV, hokV, hvV⟩ := hl.sv.ok
+      refine ⟨by rw [k2]; simpa using k3, ?_⟩
+      have := hokV.cur_mem
+      have e1 : curV = y.arg := by rw [k2]; exact hvV.symm
+      rw [e1] at this; simpa using this
+
 /-- one step of the model against the lineage monitor -/
-theorem lin_step (s s' : St) (e : Ev) (ms : C05lSt) (hl : LinLink s ms) (ha : AllRec s) (hc : Cur s) (hi : I1 s)
-    (hk : K4 s) (hs : step s e = some s') :
+theorem lin_step (s s' : St) (e : Ev) (ms : C05lSt) (msA : C04St) (hl : LinLink s ms) (hA : LinkA s msA)
+    (ha : AllRec s) (hc : Cur s) (hi : I1 s) (hk : K4 s) (hs : step s e = some s') :
     match Ev.obs e with
     | none => LinLink s' ms
     | some o => ∃ ms', monC05l.step ms o = some ms' ∧ LinLink s' ms' := by
@@ -668,6 +926,8 @@ theorem lin_step (s s' : St) (e : Ev) (ms : C05lSt) (hl : LinLink s ms) (ha : Al
   have hsv := sv_reg_step s s' e ms.svR hl.sv hs
   have hm := step_mono s s' e ha hs
   have hfa := step_fa s s' e hs
+  have hcrs : ∀ c, ms.croots.contains c = true → s'.croots.contains c = true ∨ s'.pcancel.contains c = true :=
+    fun c h => step_crs s s' e hs c (hl.crs c h)
   have hcfg : (∀ c, e ≠ .cfg c) → ∀ cf, s'.cfg = some cf → ms.cfg = cf := by
     intro hne cf h; rw [step_cfg s s' e hs hne] at h; exact hl.cf cf h
   have hinf0 : ∀ k n, s.ent[k]? = some n → ∃ x y, s'.insts[n]? = some x ∧ s'.recs[x.rid]? = some y ∧
@@ -691,7 +951,8 @@ theorem lin_step (s s' : St) (e : Ev) (ms : C05lSt) (hl : LinLink s ms) (ha : Al
     obtain ⟨c1, h1c, h2c⟩ := hctx
     obtain ⟨f1, h1f, h2f⟩ := hfn
     obtain ⟨v1, h1v, h2v⟩ := hsv
-    refine ⟨{ cfg := c, info := ms.info, ctxR := c1, fnR := f1, svR := v1 }, ?_, h2c, h2f, h2v, ?_, hinf'⟩
+    refine ⟨{ cfg := c, info := ms.info, croots := ms.croots, ctxR := c1, fnR := f1, svR := v1 }, ?_,
+      h2c, h2f, h2v, ?_, hinf', hcrs⟩
     · simp only [Ev.obs, monC05l] at h1c h1f h1v ⊢
       simp [h1c, h1f, h1v]
     · simp only [step, stepI] at hs
@@ -704,8 +965,8 @@ theorem lin_step (s s' : St) (e : Ev) (ms : C05lSt) (hl : LinLink s ms) (ha : Al
     obtain ⟨c1, h1c, h2c⟩ := hctx
     obtain ⟨f1, h1f, h2f⟩ := hfn
     obtain ⟨v1, h1v, h2v⟩ := hsv
-    refine ⟨{ cfg := ms.cfg, info := (k, f, arg, root) :: ms.info, ctxR := c1, fnR := f1, svR := v1 }, ?_,
-      h2c, h2f, h2v, hcf', ?_⟩
+    refine ⟨{ ms with info := (k, f, arg, root) :: ms.info, ctxR := c1, fnR := f1, svR := v1 }, ?_,
+      h2c, h2f, h2v, hcf', ?_, hcrs⟩
     · simp only [Ev.obs, monC05l] at h1c h1f h1v ⊢
       simp [h1c, h1f, h1v]
     · simp only [step, stepI] at hs
@@ -734,13 +995,35 @@ theorem lin_step (s s' : St) (e : Ev) (ms : C05lSt) (hl : LinLink s ms) (ha : Al
           · cases hs
         · cases hs
       · cases hs
+  | envCancel c =>
+    have hinf' := hinf (by intro _ _ _ _ _ h; cases h)
+    have hcf' := hcfg (by intro c h; cases h)
+    obtain ⟨c1, h1c, h2c⟩ := hctx
+    obtain ⟨f1, h1f, h2f⟩ := hfn
+    obtain ⟨v1, h1v, h2v⟩ := hsv
+    refine ⟨{ cfg := ms.cfg, info := ms.info, croots := c :: ms.croots, ctxR := c1, fnR := f1, svR := v1 }, ?_,
+      h2c, h2f, h2v, hcf', hinf', ?_⟩
+    · simp only [Ev.obs, monC05l] at h1c h1f h1v ⊢
+      simp [h1c, h1f, h1v]
+    · simp only [step, stepI] at hs
+      split at hs
+      · simp at hs; subst hs
+        intro d h
+        simp only [List.contains_cons, Bool.or_eq_true] at h ⊢
+        rcases h with h | h
+        · exact Or.inr (Or.inl h)
+        · rcases hl.crs d h with g | g
+          · exact Or.inl g
+          · exact Or.inr (Or.inr g)
+      · cases hs
   | probeCtx k b =>
     have hinf' := hinf (by intro _ _ _ _ _ h; cases h)
     have hcf' := hcfg (by intro c h; cases h)
     obtain ⟨c1, h1c, h2c⟩ := hctx
     obtain ⟨f1, h1f, h2f⟩ := hfn
     obtain ⟨v1, h1v, h2v⟩ := hsv
-    refine ⟨{ cfg := ms.cfg, info := ms.info, ctxR := c1, fnR := f1, svR := v1 }, ?_, h2c, h2f, h2v, hcf', hinf'⟩
+    refine ⟨{ cfg := ms.cfg, info := ms.info, croots := ms.croots, ctxR := c1, fnR := f1, svR := v1 }, ?_,
+      h2c, h2f, h2v, hcf', hinf', hcrs⟩
     cases b with
     | true =>
       simp only [Ev.obs, monC05l] at h1c h1f h1v ⊢
@@ -752,60 +1035,62 @@ theorem lin_step (s s' : St) (e : Ev) (ms : C05lSt) (hl : LinLink s ms) (ha : Al
         split at hs
         · rename_i hb
           simp at hs; subst hs
-          obtain ⟨x, y, hx, hy, hf⟩ := hl.inf k n hn
-          have hlive : s.isCancelled x = false := by simpa [ctxErrOf, hx] using hb
-          obtain ⟨g1, g2, r, y0, g3, g4, _, g6⟩ := live_current hc ha hi n x hx hlive
-          subst g6
-          rw [hy] at g4; cases g4
-          -- context
-          obtain ⟨Lc, curC, hokC, hvC⟩ := hl.ctx.ok
-          have hcurC : s.ctx = curC := by
-            rcases hvC with h | h
-            · exact h
-            · exact absurd h g2
-          have hmemC : x.root ∈ ms.ctxR.vals := by
-            have := hokC.cur_mem; rw [← hcurC, ← g1] at this; simpa using this
-          have hneC : (x.root != 0) = true := by rw [g1]; simpa using g2
-          -- routine function
-          obtain ⟨Lf, curF, hokF, hvF⟩ := hl.fn.ok
-          have hfn0 : y.fn ≠ 0 := hvF.nz x.rid y g3 hy
-          have hcurF : y.fn = curF := by
-            by_cases hsm : stateMode s
-            · obtain ⟨cf, hcf, hst⟩ := hsm
-              have := (hk.lnk cf hcf hst x.rid y g3 hy).1
-              rw [this]; exact hvF.sf (not_plain_of_state hcf hst)
-            · exact hvF.rc hsm x.rid y g3 hy
-          have hmemF : y.fn ∈ ms.fnR.vals := by
-            have := hokF.cur_mem; rw [← hcurF] at this; simpa using this
-          -- stored state
-          have hst : (!ms.cfg.state || (y.arg != 0 && ms.svR.vals.contains y.arg)) = true := by
-            cases hcfg0 : s.cfg with
-            | none => have := hk.pre hcfg0; rw [g3] at this; cases this
-            | some cf =>
-              rw [hl.cf cf hcfg0]
-              cases hstate : cf.state with
-              | false => rfl
-              | true =>
-                obtain ⟨_, k2, k3, _⟩ := hk.lnk cf hcfg0 hstate x.rid y g3 hy
-                obtain ⟨Lv, curV, hokV, hvV⟩ := hl.sv.ok
-                have hmemV : ms.svR.vals.contains y.arg = true := by
-                  have := hokV.cur_mem
-                  have e1 : curV = y.arg := by rw [k2]; exact hvV.symm
-                  rw [e1] at this; exact this
-                have : (y.arg != 0) = true := by rw [k2]; simpa using k3
-                have hmemV' : y.arg ∈ ms.svR.vals := by simpa using hmemV
-                simp [this, hmemV']
-          have hfn0' : (y.fn != 0) = true := by simpa using hfn0
+          obtain ⟨f, arg, root, hf, q1, q2, _, q4, q5, q6⟩ := lin_facts hl ha hc hi hk k n hn hb
           simp only [Ev.obs, monC05l] at h1c h1f h1v ⊢
           simp only [hf]
-          simp only [Bool.not_eq_true', Bool.or_eq_true, Bool.and_eq_true] at hst
-          simp [h1c, h1f, h1v, hmemC, hneC, hmemF, hfn0']
+          simp [h1c, h1f, h1v, q1, q2, q4, q5]
           intro hsm
-          rcases hst with h0 | ⟨h1, h2⟩
-          · rw [hsm] at h0; cases h0
-          · exact ⟨by simpa using h1, by simpa using h2⟩
+          have := q6 hsm
+          exact ⟨by simpa using this.1, this.2⟩
         · cases hs
       · cases hs
+  | quiesce p r l =>
+    have hinf' := hinf (by intro _ _ _ _ _ h; cases h)
+    have hcf' := hcfg (by intro c h; cases h)
+    obtain ⟨c1, h1c, h2c⟩ := hctx
+    obtain ⟨f1, h1f, h2f⟩ := hfn
+    obtain ⟨v1, h1v, h2v⟩ := hsv
+    refine ⟨{ cfg := ms.cfg, info := ms.info, croots := ms.croots, ctxR := c1, fnR := f1, svR := v1 }, ?_,
+      h2c, h2f, h2v, hcf', hinf', hcrs⟩
+    simp only [step] at hs
+    split at hs
+    · rename_i hq
+      simp at hs; subst hs
+      have hlive : l = liveKs s := hq.2.2.2
+      subst hlive
+      have hle := liveKs_le_one s msA hc hA
+      have hpc := quiescent_pcancel hq.1
+      cases hlk : liveKs s with
+      | nil =>
+        simp only [Ev.obs, monC05l, hlk] at h1c h1f h1v ⊢
+        simp [h1c, h1f, h1v]
+      | cons k t =>
+        cases t with
+        | cons k2 t2 => rw [hlk] at hle; simp at hle
+        | nil =>
+          have hkm : k ∈ liveKs s := by rw [hlk]; simp
+          simp only [liveKs, List.mem_filter] at hkm
+          obtain ⟨_, hlv⟩ := hkm
+          cases hn : s.ent[k]? with
+          | none => simp [hn] at hlv
+          | some n =>
+            simp only [hn] at hlv
+            have hb : ctxErrOf s n = false := by simpa using hlv
+            obtain ⟨f, arg, root, hf, q1, q2, q3, q4, q5, q6⟩ := lin_facts hl ha hc hi hk k n hn hb
+            have hnc : ms.croots.contains root = false := by
+              cases hcc : ms.croots.contains root with
+              | false => rfl
+              | true =>
+                rcases hl.crs root hcc with g | g
+                · rw [q3] at g; cases g
+                · rw [hpc] at g; simp at g
+            simp only [Ev.obs, monC05l, hlk] at h1c h1f h1v ⊢
+            simp only [hf]
+            simp [h1c, h1f, h1v, q1, q2, q4, q5]
+            refine ⟨by simpa using hnc, ?_⟩
+            intro hsm
+            simpa using (q6 hsm).1
+    · cases hs
   | emit o =>
     have hinf' := hinf (by intro _ _ _ _ _ h; cases h)
     have hcf' := hcfg (by intro c h; cases h)
@@ -821,25 +1106,27 @@ theorem lin_step (s s' : St) (e : Ev) (ms : C05lSt) (hl : LinLink s ms) (ha : Al
       obtain ⟨c1, h1c, h2c⟩ := hctx
       obtain ⟨f1, h1f, h2f⟩ := hfn
       obtain ⟨v1, h1v, h2v⟩ := hsv
-      refine ⟨{ cfg := ms.cfg, info := ms.info, ctxR := c1, fnR := f1, svR := v1 }, ?_, h2c, h2f, h2v, hcf', hinf'⟩
+      refine ⟨{ cfg := ms.cfg, info := ms.info, croots := ms.croots, ctxR := c1, fnR := f1, svR := v1 }, ?_,
+        h2c, h2f, h2v, hcf', hinf', hcrs⟩
       simp only [Ev.obs, monC05l] at h1c h1f h1v ⊢
       simp [h1c, h1f, h1v]
   | _ =>
     have hinf' := hinf (by intro _ _ _ _ _ h; cases h)
     have hcf' := hcfg (by intro c h; cases h)
     first
-    | exact ⟨hctx, hfn, hsv, hcf', hinf'⟩
+    | exact ⟨hctx, hfn, hsv, hcf', hinf', hcrs⟩
     | (obtain ⟨c1, h1c, h2c⟩ := hctx
        obtain ⟨f1, h1f, h2f⟩ := hfn
        obtain ⟨v1, h1v, h2v⟩ := hsv
-       refine ⟨{ cfg := ms.cfg, info := ms.info, ctxR := c1, fnR := f1, svR := v1 }, ?_, h2c, h2f, h2v, hcf', hinf'⟩
+       refine ⟨{ cfg := ms.cfg, info := ms.info, croots := ms.croots, ctxR := c1, fnR := f1, svR := v1 }, ?_,
+         h2c, h2f, h2v, hcf', hinf', hcrs⟩
        simp only [Ev.obs, monC05l] at h1c h1f h1v ⊢
        simp [h1c, h1f, h1v])
 
-theorem lin_run (s0 s : St) (ms0 : C05lSt) (es : List Ev) (ha : AllRec s0) (hc : Cur s0) (hi : I1 s0) (hk : K4 s0)
-    (hl : LinLink s0 ms0) (hr : model.run s0 es = some s) :
+theorem lin_run (s0 s : St) (ms0 : C05lSt) (es : List Ev) (hg : Good s0) (hc : Cur s0) (hi : I1 s0) (hk : K4 s0)
+    (hl : LinLink s0 ms0) (msA : C04St) (hA : LinkA s0 msA) (hr : model.run s0 es = some s) :
     ∃ ms, monC05l.run ms0 (es.filterMap model.obs) = some ms ∧ LinLink s ms := by
-  induction es generalizing s0 ms0 with
+  induction es generalizing s0 ms0 msA with
   | nil => simp [OLTS.run] at hr; subst hr; exact ⟨ms0, rfl, hl⟩
   | cons e es ih =>
     simp only [OLTS.run] at hr
@@ -847,22 +1134,25 @@ theorem lin_run (s0 s : St) (ms0 : C05lSt) (es : List Ev) (ha : AllRec s0) (hc :
     | none => simp [hst] at hr
     | some s1 =>
       simp [hst] at hr
-      have ha1 := (step_ok s0 s1 e ha hst).1
-      have hc1 := step_cur s0 s1 e hc ha hst
-      have hi1 := i1_step hi (step_mono s0 s1 e ha hst)
+      have hok := step_ok s0 s1 e hg.recs hst
+      have hg1 : Good s1 := ⟨hok.1, hok.2.inv hg.chain⟩
+      have hc1 := step_cur s0 s1 e hc hg.recs hst
+      have hi1 := i1_step hi (step_mono s0 s1 e hg.recs hst)
       have hk1 := step_k4 s0 s1 e hk hst
-      have hstep := lin_step s0 s1 e ms0 hl ha hc hi hk hst
+      have hA1 := link_step s0 s1 e msA hA hg.recs hst hg1
+      have hstep := lin_step s0 s1 e ms0 msA hl hA hg.recs hc hi hk hst
       cases hob : Ev.obs e with
       | none =>
-        rw [hob] at hstep
-        obtain ⟨ms, h1, h2⟩ := ih s1 ms0 ha1 hc1 hi1 hk1 hstep hr
+        rw [hob] at hstep hA1
+        obtain ⟨ms, h1, h2⟩ := ih s1 ms0 hg1 hc1 hi1 hk1 hstep msA hA1 hr
         refine ⟨ms, ?_, h2⟩
         have : model.obs e = none := hob
         simpa [List.filterMap_cons, this] using h1
       | some o =>
-        rw [hob] at hstep
+        rw [hob] at hstep hA1
+        obtain ⟨msA', _, hA'⟩ := hA1
         obtain ⟨ms1, hm1, hl1⟩ := hstep
-        obtain ⟨ms, h1, h2⟩ := ih s1 ms1 ha1 hc1 hi1 hk1 hl1 hr
+        obtain ⟨ms, h1, h2⟩ := ih s1 ms1 hg1 hc1 hi1 hk1 hl1 msA' hA' hr
         refine ⟨ms, ?_, h2⟩
         have : model.obs e = some o := hob
         simp [List.filterMap_cons, this, ObsMonitor.run, hm1, h1]
